@@ -10,6 +10,7 @@ verus! {
 pub enum IoErrorKind { InvalidInput, UnexpectedEof, InvalidData, Other }
 pub struct IoError { pub k: IoErrorKind }
 pub mod std {
+    pub use ::core::mem;
     pub mod io {
         pub use crate::IoErrorKind as ErrorKind;
         pub use crate::IoError as Error;
@@ -17,12 +18,23 @@ pub mod std {
 }
 
 pub struct Rdh0;
+/// the concrete header type (64 bytes), for code that mentions it by name
+pub struct RdhCru { pub b: [u8; 64] }
+global layout RdhCru is size == 64, align == 1;
 pub struct Sender;
 #[derive(Clone, Copy)]
 pub struct FilterTarget { pub t: u32 }
 
 /// reader: only its position in the stream matters here
 pub struct Reader { pub pos: Ghost<int> }
+impl Reader {
+    /// BufferedReaderWrapper::seek_relative_offset: on Ok the position moved forward by `offset`
+    /// (pipes: unit v_stdin_seek; files: BufReader::seek_relative, assumed)
+    #[verifier::external_body]
+    pub fn seek_relative_offset(&mut self, offset: i64) -> (r: Result<(), std::io::Error>)
+        ensures r.is_ok() ==> final(self).pos@ == old(self).pos@ + offset, r.is_err() ==> final(self).pos == old(self).pos
+    { unimplemented!() }
+}
 
 pub trait SerdeRdh: Sized {
     /// stream position this header was read from
@@ -52,6 +64,12 @@ fn sanity_check_offset_next<T: RDH>(rdh: &T, current_memory_address: u64, stats_
 pub struct MemPosTracker { pub memory_address_bytes: u64 }
 impl MemPosTracker {
     pub fn current_mem_address(&self) -> (r: u64) ensures r == self.memory_address_bytes { self.memory_address_bytes }
+    /// proved on the extracted body in unit v_trackers (and bit-precisely by Kani full_mem_pos_tracker)
+    #[verifier::external_body]
+    pub fn next(&mut self, rdh_offset: u64) -> (r: i64)
+        requires rdh_offset >= 64, rdh_offset <= 0xFFFF
+        ensures r == rdh_offset - 64, final(self).memory_address_bytes as int == old(self).memory_address_bytes + rdh_offset
+    { unimplemented!() }
 }
 
 pub struct Stats { pub filtered: Ghost<int>, pub payload: Ghost<int> }
@@ -97,15 +115,7 @@ impl InputScanner {
             final(self).stats == old(self).stats, final(self).initial_reported == old(self).initial_reported, final(self).initial_rdh0 == old(self).initial_rdh0, final(self).frame_eq(old(self))
     { unimplemented!() }
 
-    /// MemPosTracker::next + relative seek (unit v_trackers): tracker += o; on Ok the reader moved by o - 64
-    #[verifier::external_body]
-    fn seek_to_next_rdh(&mut self, offset_to_next: u16) -> (r: Result<(), std::io::Error>)
-        requires offset_to_next >= 64
-        ensures final(self).tracker.memory_address_bytes as int == old(self).tracker.memory_address_bytes + offset_to_next,
-            r.is_ok() ==> final(self).reader.pos@ == old(self).reader.pos@ + offset_to_next - 64,
-            final(self).stats == old(self).stats, final(self).seen == old(self).seen, final(self).initial_reported == old(self).initial_reported,
-            final(self).initial_rdh0 == old(self).initial_rdh0, final(self).frame_eq(old(self))
-    { unimplemented!() }
+//@EXTRACT seek_to_next_rdh
 
 //@EXTRACT load_next_rdh_to_filter
 
